@@ -403,8 +403,11 @@ func c17Equal(c *ctx, a, b builtRes, how string) {
 	obs := oL([]string{o1, o2, o3, o4})
 	var key, detail string
 	names := sameNameSets(ra, rb)
+	// the recorded finding: fields are paired by position after sorting and their
+	// names never compared -- it can only show when both sides have the same
+	// number of attributes and of relationships
 	pre := ""
-	if !names {
+	if !names && len(ra.Attrs()) == len(rb.Attrs()) && len(ra.Rels()) == len(rb.Rels()) {
 		pre = "equal-ignores-field-names"
 	}
 	fail := func(k, d string) {
@@ -528,6 +531,13 @@ func runC17Equal(c *ctx) {
 						ops3 = append(ops3, o)
 					}
 					c17Equal(c, a, builtRes{t3, wb, ops3}, "field-renamed")
+				}
+				// one side has one more attribute / relationship (sorted last, first), both orders
+				for _, extra := range []fieldSpec{{name: "zzextra", code: 2}, {name: "0extra", code: 1}, {rel: true, name: "zzrel", toOne: true, target: "other"}} {
+					t4 := cloneSpec(t)
+					t4.fields = append(t4.fields, extra)
+					c17Equal(c, a, builtRes{t4, wb, ops}, "extra-field")
+					c17Equal(c, builtRes{t4, wb, ops}, a, "extra-field")
 				}
 			}
 		}
